@@ -33,3 +33,16 @@ From RS Require Import Render RenderStmts RenderFacts1.
 Theorem C05_rendered_cycles : forall nw, stmt_render_C05 nw.
 Proof. exact render_C05. Qed.
 Print Assumptions C05_rendered_cycles.
+
+(** END TO END. For every instance that is valid (valid_instance_b) with unsigned limits and capacities, every network
+    [load] builds from it, all flow tours that are valid Paths over nodes of the network, and EVERY result of the
+    modelled pipeline (from_tours, improve_depots, any trajectory through the enumerated neighbours, any optimiser
+    transitions satisfying the C15 invariant, the final alignment): the result can be rendered, and the rendered JSON
+    passes check_C01, check_C02, check_C03, check_C04 and check_C05 — itineraries feasible, formation / track / depot
+    limits respected, output complete with agreeing vehicle and trip views, reported objective = independent
+    evaluation, cycles partition the vehicles and every vehicle ends where its successor starts. (The model is compared
+    with the implementation on every run: every stage snapshot, every accepted search step, the returned JSON.) *)
+From RS Require Import EndToEndStmts EndToEndFacts.
+Theorem C05_end_to_end : stmt_end_to_end.
+Proof. exact end_to_end. Qed.
+Print Assumptions C05_end_to_end.
